@@ -71,6 +71,8 @@ class _UnitsInterp(FinamInterp):
         return raised.name in U(type_expr)
 
     def get_attr(self, obj, attr, node, mod):
+        if isinstance(obj, Sym) and obj.op == "unit" and attr in ("dimensionless", "unitless"):
+            return bool(getattr(self, "dimensionless", False))  # (percent, ppm, radian, "1": dimensionless units with different factors)
         if isinstance(obj, Sym) and obj.op == "unit" and attr in ("is_compatible_with", "dimensionality"):
             return Sym("unitmethod", obj, attr) if attr == "is_compatible_with" else Sym("base", obj)
         if isinstance(obj, Sym) and obj.op == "qty":
@@ -186,20 +188,22 @@ def r36_units(repo, sink):
     except (Raised, Undecided, AnalysisError) as exc:
         sink.unknown("R36", "units:equivalence-by-conversion", eu, f"equivalent_units outside vocabulary: {exc}")
         return
-    for compatible, equivalent in ((True, True), (True, False), (False, False)):
+    for compatible, equivalent, dimless in ((True, True, False), (True, False, False), (False, False, False), (True, False, True), (True, True, True)):
         it = _UnitsInterp(repo, compatible, equivalent)
+        it.dimensionless = dimless  # both units dimensionless (percent vs 1: compatible, not equivalent)
         try:
             # query order must not matter: equivalent first, then compatible, then again (cache hits)
             seqs = [(eu, equivalent), (cu, compatible), (eu, equivalent), (cu, compatible)]
             for f, want in seqs:
                 got = it.run(f, [a, b])
                 if got is not want and got != want:
-                    worst = worst or (f"dimension-equal={compatible}, factor-one={equivalent}: {f.name} answers {got!r}, expected {want} "
+                    worst = worst or (f"dimension-equal={compatible}, factor-one={equivalent}{', both units dimensionless (percent and 1)' if dimless else ''}: {f.name} answers {got!r}, expected {want} "
                                       f"(after {it.conversions} conversion(s); answers must not depend on earlier queries)")
             if it.conversions != 1:
                 worst = worst or f"pair converted {it.conversions} times: the memo is not used / keyed wrongly"
             # the reversed pair is a different key
             it2 = _UnitsInterp(repo, compatible, equivalent)
+            it2.dimensionless = dimless
             it2.run(cu, [a, b])
             if (b, a) in it2.cache and (a, b) not in it2.cache:
                 worst = worst or "memo is keyed by the reversed pair"
@@ -1312,7 +1316,12 @@ def r15gl_without_location(repo, sink):
 
 
 # =========================================================================== R15c
-def r15c_copy_with(repo, sink):
+def r15c_copy_only(repo, sink):
+    """copy_with without the mask-normalisation cases (for properties whose statement is about grids, not masks)."""
+    r15c_copy_with(repo, sink, parts=("copy",))
+
+
+def r15c_copy_with(repo, sink, parts=("copy", "masks")):
     """Info.copy_with: with use_none=False a None argument never overwrites a set field -
     for time, grid, mask, units and every other metadata key alike (Input.exchange_info
     merges delivered and requested info through it)."""
@@ -1322,7 +1331,8 @@ def r15c_copy_with(repo, sink):
     class _I(FinamInterp):
         def construct(self, cls, args, kwargs, node):
             if cls.name == "Info":
-                o = Obj(cls=None, label="Info:copy")
+                # the copy: the class's own methods (helpers of copy_with) run on it, its four public properties are plain fields
+                o = Obj(cls=cls, label="Info:copy")
                 o.fields.update(time=kwargs.get("time"), grid=kwargs.get("grid"), mask=kwargs.get("mask"), meta=dict(kwargs.get("meta") or {}))
                 return o
             return super().construct(cls, args, kwargs, node)
@@ -1331,6 +1341,12 @@ def r15c_copy_with(repo, sink):
             if isinstance(obj, Obj) and obj.label.startswith("Info") and attr in obj.fields:
                 return obj.fields[attr]
             return super().get_attr(obj, attr, node, mod)
+
+        def store_attr(self, obj, attr, v, node):
+            if isinstance(obj, Obj) and obj.label == "Info:copy" and attr in ("time", "grid", "mask", "meta"):
+                obj.fields[attr] = v  # (validation by the setters: table `setters` / R15 mask cases)
+                return None
+            return super().store_attr(obj, attr, v, node)
 
         def ext_call(self, name, args, kwargs, node):
             if name == "copy.copy":
@@ -1449,9 +1465,33 @@ def r15c_copy_with(repo, sink):
     if why != "skip":
         sink.check(why is None, "R15", "copy_with-relayout", f,
                    ok="a delivered info with a fixed mask can be merged onto a compatible grid of another layout", bad=why or "")
+    # a copy of an info (copy.copy / Info.copy()) announces the same mask: flexible, none or the fixed one
+    if "masks" in parts:
+        cp = repo.resolve(ic, "__copy__", "method") or repo.resolve(ic, "copy", "method")
+        FLEX_, NONE__ = Sym("enum", "Mask", "FLEX"), Sym("enum", "Mask", "NONE")
+        why_c = None
+        try:
+            for kname, mk_ in (("Mask.FLEX", FLEX_), ("Mask.NONE", NONE__), ("a fixed mask", Sym("maskarr", "M", (3, 2)))):
+                it = _R(repo)
+                o = it.construct(ic, [], {"time": Sym("time", "T"), "grid": g1, "mask": mk_, "units": "m"}, None)
+                before = it.attr(o, "mask", None, None)
+                c2 = it.run(cp, [], self_obj=o)
+                after = it.attr(c2, "mask", None, None)
+                if c2 is o:
+                    why_c = why_c or "the copy is the object itself"
+                elif after != before or it.attr(c2, "grid", None, None) is not g1 or it.attr(c2, "time", None, None) != Sym("time", "T"):
+                    why_c = why_c or (f"the copy of an info with mask {kname} announces mask {after!r} (grid {it.attr(c2, 'grid', None, None)!r}): a consumer that built its "
+                                      "request with .copy() accepts producers it excluded and receives masked arrays it declared not to handle")
+        except Raised as r:
+            why_c = f"copying an info raises {r.name}"
+        except (Undecided, AnalysisError) as exc:
+            sink.unknown("R15", "copy-keeps-mask", cp or f, f"outside vocabulary: {exc}")
+            why_c = "skip"
+        if why_c != "skip":
+            sink.check(why_c is None, "R15", "copy-keeps-mask", cp or f, ok="a copied info announces the same mask (flexible / none / fixed), grid and time", bad=why_c or "")
     # whatever form a fixed mask is given in (0/1 integers, a list, a masked array ...), the info keeps it as a boolean mask array:
     # the comparisons of masks (equal, sub-mask) only recognise those
-    for kind in ("int-array", "list", "masked-int-array", "bool-array"):
+    for kind in (("int-array", "list", "masked-int-array", "bool-array") if "masks" in parts else ()):
         try:
             it = _R(repo)
             raw = Sym("rawmask", "M", kind, (3, 2))
